@@ -21,6 +21,8 @@ type wStreamAcct struct {
 }
 
 type wConnAcct struct {
+	seenPN      [2][3]map[int64]bool // packet numbers seen on the wire, per sender and space
+	probePN     [2]map[int64]bool    // 1-RTT packets that carried PATH_CHALLENGE / PATH_RESPONSE
 	c           *TapConn
 	lastPN      [2][3]int64
 	streams     [2]map[uint64]*wStreamAcct // by sender dir
@@ -41,12 +43,13 @@ type wConnAcct struct {
 }
 
 type WireOracles struct {
-	w     *World
-	n     *Nodes
-	res   *KResult
-	on    map[string]bool
-	accts map[*TapConn]*wConnAcct
-	fails int
+	forged [2][]int64 // 1-RTT packet numbers of forged packets played to the client (0) / server (1)
+	w      *World
+	n      *Nodes
+	res    *KResult
+	on     map[string]bool
+	accts  map[*TapConn]*wConnAcct
+	fails  int
 }
 
 func wOraclesEnabled(def string) map[string]bool {
@@ -157,10 +160,36 @@ func (o *WireOracles) onSend(rec *DgramRec, data []byte) {
 			}
 			continue
 		}
+		// (a path probe - PATH_CHALLENGE / PATH_RESPONSE to another address - is written to the socket directly and may overtake
+		// packets with lower numbers that are still in the send queue: an inversion against probes only is not a reuse)
 		if p.PN <= a.lastPN[d][sp] {
-			o.report("C05", "packet number not strictly increasing within a number space", "%s", p.String())
+			onlyProbes := !a.seenPN[d][sp][p.PN]
+			for pn := p.PN + 1; pn <= a.lastPN[d][sp] && onlyProbes; pn++ {
+				if a.seenPN[d][sp][pn] && !a.probePN[d][pn] {
+					onlyProbes = false
+				}
+			}
+			if !onlyProbes || sp != 2 {
+				o.report("C05", "packet number not strictly increasing within a number space", "%s", p.String())
+			} else {
+				o.res.Probe("path-probe-overtook-queued-packets")
+			}
 		}
-		a.lastPN[d][sp] = p.PN
+		if a.seenPN[d][sp] == nil {
+			a.seenPN[d][sp] = map[int64]bool{}
+		}
+		a.seenPN[d][sp][p.PN] = true
+		if sp == 2 {
+			for i := range p.Frames {
+				if n := p.Frames[i].Name; n == "PATH_CHALLENGE" || n == "PATH_RESPONSE" {
+					if a.probePN[d] == nil {
+						a.probePN[d] = map[int64]bool{}
+					}
+					a.probePN[d][p.PN] = true
+				}
+			}
+		}
+		a.lastPN[d][sp] = max(a.lastPN[d][sp], p.PN)
 		// the truncated packet number must be decodable given what the sender knows to be acknowledged (RFC 9000 17.1)
 		specInitial := p.Type == TapInitial && d == 0 && o.n.Spec != nil
 		if !specInitial {
@@ -181,7 +210,10 @@ func (o *WireOracles) onSend(rec *DgramRec, data []byte) {
 						// RFC 9001 6.1/6.2: only after handshake confirmation and after an ACK for a packet of the current phase
 						// (a client may also treat an acknowledged 1-RTT packet as confirmation, RFC 9001 4.1.2)
 						confirmed := (d == 1 && a.hsDoneSent) || (d == 0 && (a.hsDoneDeliv || p.Conn.ackedTo[0][2] >= a.firstGenPN[0][0]))
-						if !confirmed {
+						// (a path probe may overtake the queued packet that carries HANDSHAKE_DONE, see above)
+						if !confirmed && a.probePN[d][p.PN] {
+							o.res.Probe("path-probe-overtook-queued-packets")
+						} else if !confirmed {
 							o.report("C05", "key update initiated before the handshake was confirmed", "%s", p.String())
 						}
 						// the first update only needs the confirmed handshake; subsequent ones need an ACK for the current phase
@@ -382,6 +414,10 @@ func (o *WireOracles) checkEndpointView() {
 					damagedOnly[k] = p
 				}
 			}
+		}
+		// packets the simulation itself forged and played to this endpoint (foreign-peer probe) arrived intact
+		for _, pn := range o.forged[side] {
+			intact[pk{"1RTT", pn}] = true
 		}
 		ql.mu.Lock()
 		for _, e := range ql.Events {
